@@ -38,8 +38,23 @@ type replayFile struct {
 	ReplayOut  string            `json:"replay_output,omitempty"`
 }
 
-func templateFor(fn string) string {
-	return filepath.Join(verifDir, "replay", sanitize(fn)+".go.tmpl")
+type replayIndexEntry struct {
+	Template string            `json:"template"`
+	Vars     map[string]string `json:"vars"`
+}
+
+// templateFor finds the replay template of a function: /verif/replay/index.json maps function names to
+// shared templates (with constant template variables); otherwise <sanitized name>.go.tmpl.
+func templateFor(fn string) (string, map[string]string) {
+	if b, err := os.ReadFile(filepath.Join(verifDir, "replay", "index.json")); err == nil {
+		idx := map[string]replayIndexEntry{}
+		if json.Unmarshal(b, &idx) == nil {
+			if e, ok := idx[fn]; ok {
+				return filepath.Join(verifDir, "replay", e.Template), e.Vars
+			}
+		}
+	}
+	return filepath.Join(verifDir, "replay", sanitize(fn)+".go.tmpl"), nil
 }
 
 // smtInt parses an SMT integer / bit-vector / bool model value into a Go literal.
@@ -82,7 +97,7 @@ func writeReplay(dir, prop string, r *FuncResult, o *Obligation) ReplayResult {
 	}
 	rf.Witness = wit
 	res := ReplayResult{Path: path}
-	tp := templateFor(r.Func)
+	tp, tvars := templateFor(r.Func)
 	if tb, err := os.ReadFile(tp); err == nil && len(o.Model) > 0 {
 		rf.Template = tp
 		// the template may state which models it can replay ("// prefer: <expr over the entry state>")
@@ -95,7 +110,31 @@ func writeReplay(dir, prop string, r *FuncResult, o *Obligation) ReplayResult {
 			}
 			rf.Witness = wit
 		}
+		for k, v := range tvars {
+			wit[k] = v
+		}
 		ok, detail := runReplayTemplate(string(tb), rf, r, wit)
+		// a model of the relaxed query may be spurious: ask for other models (previous ones blocked)
+		var blocked []map[string]string
+		for attempt := 0; !ok && attempt < 3 && len(wit) > 0; attempt++ {
+			blocked = append(blocked, rawWitness(o.Model))
+			m := anotherModel(string(tb), r, o, blocked)
+			if m == nil {
+				break
+			}
+			o.Model = m
+			wit = map[string]string{}
+			for k, v := range m {
+				if strings.HasPrefix(k, "wit$") {
+					wit[k[4:]] = smtValue(v)
+				}
+			}
+			for k, v := range tvars {
+				wit[k] = v
+			}
+			rf.Witness = wit
+			ok, detail = runReplayTemplate(string(tb), rf, r, wit)
+		}
 		if ok {
 			rf.Replay = "reproduced-on-real-code"
 			res.Reproduced = true
@@ -205,6 +244,40 @@ func rerunReplay(path string) int {
 	return 0
 }
 
+func rawWitness(m map[string]string) map[string]string {
+	out := map[string]string{}
+	for k, v := range m {
+		if strings.HasPrefix(k, "wit$") {
+			out[k] = v
+		}
+	}
+	return out
+}
+
+// anotherModel asks for a counterexample whose witness values differ from the blocked ones.
+func anotherModel(tmpl string, r *FuncResult, o *Obligation, blocked []map[string]string) map[string]string {
+	x := r.X
+	var extra []Term
+	for _, b := range blocked {
+		var diffs []Term
+		for k, v := range b {
+			so, ok := x.u.declared[k]
+			if !ok {
+				continue
+			}
+			diffs = append(diffs, Not(Term{fmt.Sprintf("(= %s %s)", k, v), SBool}))
+			_ = so
+		}
+		if len(diffs) > 0 {
+			extra = append(extra, Or(diffs...))
+		}
+	}
+	if len(extra) == 0 {
+		return nil
+	}
+	return solveWith(tmpl, r, o, extra)
+}
+
 // preferredModel re-solves the failed obligation under the template's "// prefer:" constraints.
 func preferredModel(tmpl string, r *FuncResult, o *Obligation) map[string]string {
 	var prefs []string
@@ -237,6 +310,26 @@ func preferredModel(tmpl string, r *FuncResult, o *Obligation) map[string]string
 	if len(extra) == 0 {
 		return nil
 	}
+	return solveWith(tmpl, r, o, extra)
+}
+
+func solveWith(tmpl string, r *FuncResult, o *Obligation, extra []Term) map[string]string {
+	x := r.X
+	// keep the template's preferences when asking for further models
+	func() {
+		defer func() { recover() }()
+		env := x.envFor(x.topFrame, x.topFrame.entry, x.topFrame.entry)
+		env.bindLets(r.Contract)
+		for _, l := range strings.Split(tmpl, "\n") {
+			if strings.HasPrefix(l, "// prefer:") {
+				if e, err := ParseExpr(strings.TrimSpace(strings.TrimPrefix(l, "// prefer:"))); err == nil {
+					if t, err := env.Bool(e); err == nil {
+						extra = append(extra, t)
+					}
+				}
+			}
+		}
+	}()
 	o2 := *o
 	o2.NCmds = len(x.u.cmds)
 	o2.PC = And(append([]Term{o.PC}, extra...)...)
